@@ -40,6 +40,10 @@ def specs_for(ctx):
         dict(D=2, target="deadzone", box="sym", noise="det", options=dict(max_fun_evals=60), seed=1),
         dict(D=3, target="deadzone", box="sym", noise="det", options=dict(max_fun_evals=60), seed=sd + 10),
         dict(D=1, target="const", box="sym", noise="det", options=dict(max_fun_evals=40, search_grid_number=0, search_grid_multiplier=1), seed=sd + 11),
+        # noise DECLARED for a target that has none: the first GP fit needs many retries
+        dict(D=2, target="sphere", box="sym", noise="declared", sigma=0.0, options=dict(max_fun_evals=60), seed=sd + 12),
+        dict(D=2, target="rosen", box="sym", noise="declared", sigma=0.0, options=dict(max_fun_evals=60), seed=sd + 13),
+        dict(D=3, target="abs", box="sym", noise="declared", sigma=1e-6, options=dict(max_fun_evals=70), seed=sd + 14),
         # low specified noise on a steep target: the (very fine) search mesh is refined around a minimum far from the origin, so many DISTINCT
         # logged points lie within rounding distance of each other
         dict(D=1, target="sphere", box="wide", shift=[5.3], scale=1e4, noise="specified", sigma=1e-3, options=dict(max_fun_evals=90), seed=1),
